@@ -204,7 +204,10 @@ def assemble(lines, watchdog=True, wall_limit=None):
         old = signal.signal(signal.SIGALRM, _on_alarm)
         signal.setitimer(signal.ITIMER_REAL, wall_limit)
     try:
-        p.process([l if l.endswith("\n") else l + "\n" for l in lines])   # as SourceFile.readlines() delivers them
+        # as SourceFile.readlines() delivers them; a list whose lines are already terminated is passed as it is (the
+        # caller can then see whether the assembler modified ITS list)
+        src = lines if all(l.endswith("\n") for l in lines) else [l if l.endswith("\n") else l + "\n" for l in lines]
+        p.process(src)
     except _WallClock:
         return Outcome("loop", p)
     except (ParseError, TranslationError) as e:
